@@ -565,7 +565,8 @@ macro_rules! impl_nio_read_iovec {
                 };
                 let mut length = 0;
                 let mut received = 0usize;
-                let mut r = -1;
+                // a request whose buffers are all empty transfers nothing and succeeds
+                let mut r = if vec.iter().all(|i| i.iov_len == 0) { 0 } else { -1 };
                 let mut index = 0;
                 for iovec in &vec {
                     let stage = length;
@@ -582,9 +583,10 @@ macro_rules! impl_nio_read_iovec {
                     while received < length && left_time > 0 {
                         // Assuming iov_len is 4, but only 1 is read, at this point we should continue trying to fill the current iovec
                         if 0 != offset {
+                            // `offset` counts from the start of the caller's current iovec
                             arg[0] = libc::iovec {
-                                iov_base: (arg[0].iov_base as usize + offset) as *mut std::ffi::c_void,
-                                iov_len: arg[0].iov_len - offset,
+                                iov_base: (iovec.iov_base as usize + offset) as *mut std::ffi::c_void,
+                                iov_len: iovec.iov_len - offset,
                             };
                         }
                         r = self.inner.$syscall(
@@ -632,6 +634,10 @@ macro_rules! impl_nio_read_iovec {
                                 return r;
                             }
                         } else if error_kind != std::io::ErrorKind::Interrupted {
+                            // report what was transferred so far, the error only if nothing was
+                            if received > 0 {
+                                r = received.try_into().expect("received overflow");
+                            }
                             std::mem::forget(vec);
                             if blocking {
                                 $crate::syscall::set_blocking($fd);
@@ -642,6 +648,9 @@ macro_rules! impl_nio_read_iovec {
                     if received >= length {
                         index += 1;
                     }
+                }
+                if received > 0 {
+                    r = received.try_into().expect("received overflow");
                 }
                 std::mem::forget(vec);
                 if blocking {
@@ -791,7 +800,8 @@ macro_rules! impl_nio_write_iovec {
                 };
                 let mut length = 0;
                 let mut sent = 0usize;
-                let mut r = -1;
+                // a request whose buffers are all empty transfers nothing and succeeds
+                let mut r = if vec.iter().all(|i| i.iov_len == 0) { 0 } else { -1 };
                 let mut index = 0;
                 for iovec in &vec {
                     let stage = length;
@@ -807,9 +817,10 @@ macro_rules! impl_nio_write_iovec {
                     }
                     while sent < length && left_time > 0 {
                         if 0 != offset {
+                            // `offset` counts from the start of the caller's current iovec
                             arg[0] = libc::iovec {
-                                iov_base: (arg[0].iov_base as usize + offset) as *mut std::ffi::c_void,
-                                iov_len: arg[0].iov_len - offset,
+                                iov_base: (iovec.iov_base as usize + offset) as *mut std::ffi::c_void,
+                                iov_len: iovec.iov_len - offset,
                             };
                         }
                         r = self.inner.$syscall(
@@ -850,6 +861,10 @@ macro_rules! impl_nio_write_iovec {
                                 return r;
                             }
                         } else if error_kind != std::io::ErrorKind::Interrupted {
+                            // report what was transferred so far, the error only if nothing was
+                            if sent > 0 {
+                                r = sent.try_into().expect("sent overflow");
+                            }
                             std::mem::forget(vec);
                             if blocking {
                                 $crate::syscall::set_blocking($fd);
@@ -860,6 +875,9 @@ macro_rules! impl_nio_write_iovec {
                     if sent >= length {
                         index += 1;
                     }
+                }
+                if sent > 0 {
+                    r = sent.try_into().expect("sent overflow");
                 }
                 std::mem::forget(vec);
                 if blocking {
